@@ -581,11 +581,16 @@ def _router_source(ctx, tag, method, ht, hst, profile, L=6, S=20):
         R, ll, got, patches = build_real(h, vals)
         asked = []
 
+        used = []
+
         class S_:
-            def _do(self, rq_):
+            def _do(self, rq_, name):
                 asked.append(rq_)
+                used.append(name)
                 return SNSIGNConfirm(sec_message=vals["sec"], sec_message_length=len(vals["sec"]))
-            sign_cam = sign_denm = sign_request = lambda self, rq_: self._do(rq_)
+            sign_cam = lambda self, rq_: self._do(rq_, "sign_cam")
+            sign_denm = lambda self, rq_: self._do(rq_, "sign_denm")
+            sign_request = lambda self, rq_: self._do(rq_, "sign_request")
         R.sign_service = S_()
         rq = G.concretize(req, vals)
         with patches:
@@ -602,6 +607,10 @@ def _router_source(ctx, tag, method, ht, hst, profile, L=6, S=20):
         for a_ in asked:
             if not bytes(a_.tbs_message).endswith(bytes(rq.data)) or a_.its_aid != rq.its_aid:
                 bad.append("the sign service was asked to sign something else than common | extended | payload of this request")
+        want_ = {"cam": "sign_cam", "denm": "sign_denm", "other": "sign_request"}["cam" if profile in (SecurityProfile.COOPERATIVE_AWARENESS_MESSAGE, SecurityProfile.VRU_AWARENESS_MESSAGE)
+                                                                                   else "denm" if profile == SecurityProfile.DECENTRALIZED_ENVIRONMENTAL_NOTIFICATION_MESSAGE else "other"]
+        if any(u != want_ for u in used):
+            bad.append(f"the request's security profile {profile.name} was signed through {used} instead of {want_} (wrong signer rules: certificate inclusion / header fields)")
         return bool(bad), f"{tag}: " + ("; ".join(bad) or f"{len(ll.sent)} packet(s), all carrying the signed message")
     ctx.witness(f"{tag}-reach-sent", I, z3.And(h.any_send(), z3.Not(exc)), vars=vars_)
     bad = []
